@@ -14,6 +14,9 @@ CHECKS = {
     "C03": ("exploration", "property-based testing (Hypothesis @given, round-trip + independent reference parser)",
             "Hypothesis-generated messages of all 36 classes over their protocol domains go through the real send path and back through the real receive path; framing, declared/announced/actual lengths and CRC are judged by an independent spec-derived parser. Sampled, not exhaustive.",
             TRUST),
+    "C05": ("exploration", "exhaustive per-field / per-byte-pair enumeration + property-based testing (differential against an independent spec reader)",
+            "For each of the 14 status/ability/name/version/error decoders, Hypothesis-generated base payloads (written by an independent console writer) are mutated exhaustively per byte (256 values) and per adjacent byte pair (65 536 values; quick: pairs straddling multi-byte fields) over one record, with generated record counts, AT5 strides and string shapes; every decode is compared field by field with an independent reading of the vendor tables (value / ABSENT / UNDEFINED => equal / None / must reject).",
+            "payloads the documents give no reading for carry no requirement; undocumented timer messages use the docstring layout; the three AC sentinel cases the float data model cannot express are recorded known findings with the misreading pinned; " + TRUST),
     "C06": ("fault_enumeration", "exhaustive enumeration + property-based fault injection (Hypothesis) with differential oracle",
             "CRC compared with the bit-serial definition on all 1..2-byte strings (thorough: all 1..3-byte strings) and generated long ones; every single-bit, (for short frames every) double-bit and burst<=16 pattern over generated frames must fail validate(); generated corruptions on a live socket are judged differentially against an independent receive model.",
             "CRC-16 detection guarantee assumed only for the stated pattern families on frames < 4 KiB; re-framing after a length-field flip is decided by the reference receive model; " + TRUST),
